@@ -499,12 +499,113 @@ def handwritten(col, rng):
         compare(col, 'M | Val(None)', call(G, t, M | Val(None)), ('pass', 'TARGET') if t else ('pass', None), t, [], [], 'bare', None)
 
 
+def target_is_the_atom_itself(col):
+    """atoms decide by what they denote - isinstance for a type, the call for a predicate, == for a literal - also when the target is
+    the very object the atom was written with"""
+    nan = float('nan')
+    never = lambda t: False
+    always = lambda t: True
+    log = []
+
+    def counted(t):
+        log.append(t)
+        return False
+
+    class Meta(type):
+        pass
+    K = Meta('K', (), {})
+    rows = [
+        # (description, target, spec factory, passes?, value when it passes)
+        ('type atom int on int', int, lambda: Match(int), isinstance(int, int)),
+        ('type atom type on type', type, lambda: Match(type), isinstance(type, type)),
+        ('type atom K on K (metaclass)', K, lambda: Match(K), isinstance(K, K)),
+        ('Or(int, str) on int', int, lambda: Match(Or(int, str)), isinstance(int, (int, str))),
+        ('And(type, int) on int', int, lambda: Match(And(type, int)), isinstance(int, type) and isinstance(int, int)),
+        ('Not(int) on int', int, lambda: Match(Not(int)), not isinstance(int, int)),
+        ('predicate never on itself', never, lambda: Match(never), False),
+        ('predicate always on itself', always, lambda: Match(always), True),
+        ('counted predicate on itself', counted, lambda: Match(counted), False),
+        ('Or(never, always) on never', never, lambda: Match(Or(never, always)), True),
+        ('And(always, never) on always', always, lambda: Match(And(always, never)), False),
+        ('literal nan on the same nan', nan, lambda: Match(nan), nan == nan),
+        ('Or(nan, 1) on the same nan', nan, lambda: Match(Or(nan, 1)), nan == nan),
+        ('Not(nan) on the same nan', nan, lambda: Match(Not(nan)), not (nan == nan)),
+        ('list of type atoms on [int, 1]', [int, 1], lambda: Match([int]), False),
+        ('dict value type atom on the type', {'k': str}, lambda: Match({'k': str}), False),
+    ]
+    for desc, target, mk, passes in rows:
+        del log[:]
+        got = call(G, target, mk())
+        col.case(('target-is-atom', desc), True)
+        col.count('assignments_evaluated')
+        ok = (got.ok and got.value is target) if passes else (not got.ok and isinstance(got.exc, MatchError))
+        if 'counted' in desc and log != [target]:
+            ok = False
+        if not ok:
+            col.violation('C10/atom-decides-by-identity-when-the-target-is-the-atom', '%s: %r, the denotation says %s%s'
+                          % (desc, got, 'pass' if passes else 'reject', ' (predicate calls: %d)' % len(log) if 'counted' in desc else ''), None)
+    # Switch: the case whose key really passes is taken
+    got = call(G, int, Match(Switch([(int, Val('an int')), (type, Val('a type'))], default='none')))
+    col.count('assignments_evaluated')
+    if not got.ok or got.value != 'a type':
+        col.violation('C10/atom-decides-by-identity-when-the-target-is-the-atom', 'Switch([(int, ..), (type, ..)]) on int: %r, expected the type case' % (got,), None)
+    got = call(G, never, Match(Switch([(never, Val('wrong'))], default='dflt')))
+    col.count('assignments_evaluated')
+    if not got.ok or got.value != 'dflt':
+        col.violation('C10/atom-decides-by-identity-when-the-target-is-the-atom', 'Switch([(never, ..)], default=) on the predicate itself: %r, expected the default' % (got,), None)
+
+
+class _Touch:
+    def __init__(self):
+        self.n = 0
+
+    def touch(self):
+        self.n += 1
+        return 'touched'
+
+
+def combinators_under_fill(col):
+    """the combinators keep their meaning in whatever mode their children are interpreted: under Fill a plain constant is a child
+    that passes and yields itself, so Or stops there, And goes on, Not rejects, Switch takes that case"""
+    from glom import Fill
+    rows = [
+        ('Or of two constants', lambda t: Fill(Or('first', 'second')), ('value', 'first'), 0),
+        ('Or(constant, T call)', lambda t: Fill(Or('first', T.touch())), ('value', 'first'), 0),
+        ('Or(constant, failing T)', lambda t: Fill(Or('first', T['missing'])), ('value', 'first'), 0),
+        ('Or(constant, constant, default)', lambda t: Fill(Or(1, 2, default='dflt')), ('value', 1), 0),
+        ('built with |', lambda t: Fill(Or(0, 'x') | T.touch()), ('value', 0), 0),
+        ('And of constants and a T call', lambda t: Fill(And('a', T.touch(), 'c')), ('value', 'c'), 1),
+        ('And(constant, failing T)', lambda t: Fill(And('a', T['missing'], default='dflt')), ('value', 'dflt'), 0),
+        ('Not(Or(constant, M))', lambda t: Fill(Not(Or(1, M == 2))), ('reject',), 0),
+        ('Not(And(constant, failing T))', lambda t: Fill(Not(And(1, T['missing']))), ('target',), 0),
+        ('Switch keyed by an Or of constants', lambda t: Fill(Switch([(Or('x', 'y'), Val('hit')), (T, Val('later'))], default='dflt')), ('value', 'hit'), 0),
+        ('Or inside a filled dict', lambda t: Fill({'k': Or('first', T.touch()), 'n': T.touch()}), ('value', {'k': 'first', 'n': 'touched'}), 1),
+        ('Or inside a filled list', lambda t: Fill([Or('first', 'second'), Or(T.touch(), 'z')]), ('value', ['first', 'touched']), 1),
+    ]
+    for desc, mk, want, want_touches in rows:
+        t = _Touch()
+        got = call(G, t, mk(t))
+        col.case(('under-fill', desc), True)
+        col.count('assignments_evaluated')
+        if want[0] == 'value':
+            ok = got.ok and got.value == want[1]
+        elif want[0] == 'target':
+            ok = got.ok and got.value is t
+        else:
+            ok = not got.ok and isinstance(got.exc, MatchError)
+        if not ok or t.n != want_touches:
+            col.violation('C10/combinator-under-fill-differs-from-denotation', '%s: %r with %d call(s) of the later child; expected %s with %d'
+                          % (desc, got, t.n, want, want_touches), None)
+
+
 def run(ctx):
     col, rng = ctx.col, ctx.rng
     col.require('assignments_evaluated', 2000)
     col.require('predicate_calls_observed', 200)
     if ctx.shard == 0:
         handwritten(col, rng)
+        target_is_the_atom_itself(col)
+        combinators_under_fill(col)
         check_cases(col)
         col.require('check_evaluations', 1000)
         # every tree of depth 1 over two atoms of each kind is covered by the random part below; make
